@@ -154,6 +154,29 @@ def main():
         for v in canary["vacuous"]:
             errors.append(f"vacuous clause (its negation is also provable on every sampled path): {v}")
 
+    # ---- path cover: the hypotheses of every explored path must be satisfiable (an inconsistent callee contract
+    #      or frame would make everything after the call vacuously provable) ---------------------------------------
+    cover_obls = []
+    seen_paths = set()
+    from pyvc.engine import Obligation as _Ob
+    for r in all_results:
+        o = r["obl"]
+        if o.kind not in ("ensures", "raises"):
+            continue
+        key = (r["contract"].key, getattr(o, "path", ""))
+        if key in seen_paths:
+            continue
+        seen_paths.add(key)
+        co = _Ob(f"cover:{r['contract'].name}:{key[1]}", "cover", o.hyps, z3.BoolVal(False))
+        cover_obls.append(co)
+    cover = {"paths": len(cover_obls), "vacuous": []}
+    if cover_obls:
+        for r in solve.discharge_all(cover_obls, timeout_ms=2000, use_cvc5=False):
+            if r["status"] == "unsat":          # hyps => False : the path is infeasible / the hypotheses inconsistent
+                cover["vacuous"].append(r["obl"].id)
+    for v in cover["vacuous"]:
+        undecided.append(f"vacuous path (hypotheses unsatisfiable): {v}")
+
     # ---- verdicts per obligation ------------------------------------------------------------------------------
     os.makedirs(os.path.join(HERE, "replays"), exist_ok=True)
     n_obl = len(all_results)
@@ -343,6 +366,7 @@ def main():
         "undecided": undecided[:40],
         "checker_errors": errors[:20],
         "canary": canary,
+        "path_cover": cover,
         "known_findings_confirmed": known_lines,
         "engine_cross_check": {**xcheck, "samples": xsamples[:3]},
         "bounded_standins": [{k: v for k, v in b.items() if k != "failures"} | {"failures": len(b.get("failures", []))}
